@@ -25,7 +25,7 @@ func init() { props["C01"] = genC01 }
 
 type c01Tally struct {
 	requests, zero, one, many, wrongStream int
-	detail                                  []string
+	detail                                 []string
 }
 
 // c01Client sends [n] requests at once, lets [during] happen, then reads until quiet.
